@@ -15,3 +15,15 @@ func (m *Conn) VerifStartSniffing() io.Reader { return m.startSniffing() }
 
 // VerifDoneSniffing ends sniffing: subsequent reads replay everything sniffed.
 func (m *Conn) VerifDoneSniffing() { m.doneSniffing() }
+
+// VerifNewListener builds a multiplexing listener over a supplied root listener.
+func VerifNewListener(root net.Listener, flushRate int) *Listener {
+	return &Listener{
+		root:         root,
+		bufferSize:   1024,
+		errorHandler: func(_ error) bool { return true },
+		closing:      make(chan struct{}),
+		readTimeout:  noTimeout,
+		config:       Config{FlushRate: flushRate},
+	}
+}
